@@ -39,6 +39,11 @@ THEOREMS = [
     "OllamaVerif.C03.pull_fail_preserves_store",
     "OllamaVerif.C03.pull_fail_preserves_names",
     "OllamaVerif.C03.pull_fail_blobs_partial",
+    "OllamaVerif.C03.pull_fail_preserves",
+    "OllamaVerif.C03.pull_success_complete_fixed",
+    "OllamaVerif.C03.pull_no_panic_fixed",
+    "OllamaVerif.C03.F6_repaired",
+    "OllamaVerif.C03.dup_and_empty_repaired",
     "OllamaVerif.C03.retry_can_succeed",
     "OllamaVerif.C03.stuck_plan_never_recovers",
     "OllamaVerif.C03.challenge_panics_iff",
